@@ -553,6 +553,40 @@ def r08_7(ctx, rep):
            "does not mention fall back to the type's own values" % "; ".join(bad[:3]))
 
 
+@SPEC.rule(
+    "R08.8",
+    "every part of a modification is handed on: the loops of build_instance_tree that walk an argument's element modifications or a "
+    "modification's arguments (`for el in arg.value.modifications`, `for a in <x>.arguments`) are not left early — no `break` (and no "
+    "`return` of a helper inlined there) of their own: `c(y(start = 5) = 7)` carries the attribute and the value in ONE element list, and a "
+    "loop that stops after the first element drops the value",
+)
+def r08_8(ctx, rep):
+    R = "R08.8"
+    fn = ctx.func(TREE, "build_instance_tree", R)
+    site = TREE + ":build_instance_tree"
+    n = 0
+    for lp in walk_local(fn):
+        if not (isinstance(lp, ast.For) and (norm(lp.iter).endswith(".modifications") or norm(lp.iter).endswith(".arguments"))):
+            continue
+        n += 1
+        early = []
+
+        def own(node, top):
+            for ch in ast.iter_child_nodes(node):
+                if isinstance(ch, (ast.For, ast.While, ast.FunctionDef, ast.Lambda)) and ch is not top:
+                    continue
+                if isinstance(ch, (ast.Break, ast.Return)):
+                    early.append(ch)
+                own(ch, top)
+
+        own(lp, lp)
+        rep.ob(R, site, "loop over `%s` visits every element" % norm(lp.iter)[:50], not early,
+               "the loop is left with `%s`: the elements after that point (a value next to nested attributes, a second attribute) are not "
+               "turned into modifications of the symbol" % ("break" if early and isinstance(early[0], ast.Break) else "return"))
+    if n < 3:
+        raise MechanismMissing(R, "fewer than 3 loops over modification lists found in build_instance_tree")
+
+
 # -- seeded variants ---------------------------------------------------------
 from ._mut import delete_stmt_where, replace_in_func  # noqa: E402
 
@@ -674,6 +708,18 @@ def _m_prune_decl(mod):
         for n in ast.walk(fn):
             if isinstance(n, ast.If) and norm(n.test) == "sym.class_modification" and any("extend(sym_mod.arguments)" in norm(b) for b in n.body):
                 n.body.insert(0, ast.parse("sym.class_modification.arguments = [x for x in sym.class_modification.arguments if x.redeclare]").body[0])
+                return True
+        return False
+
+    return mod if replace_in_func(mod, "build_instance_tree", edit) else None
+
+
+@SPEC.mutant("element loop stops after the first element", TREE, "R08.8", "visits every element")
+def _m_first_element_only(mod):
+    def edit(fn):
+        for lp in ast.walk(fn):
+            if isinstance(lp, ast.For) and norm(lp.iter) == "arg.value.modifications":
+                lp.body.append(ast.Break())
                 return True
         return False
 
